@@ -73,6 +73,40 @@ pub open spec fn s_nodecl(s: Statement) -> bool decreases s {
     }
 }
 
+/// a resolved type the type checker can translate: a `Resolved` run-time type is one of the seven
+/// primitive ones (its `unreachable!` for the others), a user type names a variable below n
+pub open spec fn rt_ok(t: Type, n: int) -> bool decreases t {
+    match t {
+        Type::UserType(var, vars, _) => var < n && forall|i: int| 0 <= i < vars.len() ==> rt_ok(#[trigger] vars[i], n),
+        Type::Implied(_) => true,
+        Type::Resolved(r, _) => r is Void || r is Nil || r is Unknown || r is Int || r is Float || r is Bool || r is String,
+        Type::Generic(..) => true,
+        Type::Tuple(fields, _) => forall|i: int| 0 <= i < fields.len() ==> rt_ok(#[trigger] fields[i], n),
+        Type::List(kind, _) => rt_ok(*kind, n),
+        Type::Fn { params, ret, .. } => (forall|i: int| 0 <= i < params.len() ==> rt_ok(#[trigger] params[i], n)) && rt_ok(*ret, n),
+    }
+}
+pub proof fn lemma_rt_ok_mono(t: Type, n: int, m: int)
+    requires rt_ok(t, n), n <= m,
+    ensures rt_ok(t, m),
+    decreases t
+{
+    match t {
+        Type::UserType(var, vars, _) => { assert forall|i: int| 0 <= i < vars.len() implies rt_ok(#[trigger] vars[i], m) by { lemma_rt_ok_mono(vars[i], n, m); } }
+        Type::Tuple(fields, _) => { assert forall|i: int| 0 <= i < fields.len() implies rt_ok(#[trigger] fields[i], m) by { lemma_rt_ok_mono(fields[i], n, m); } }
+        Type::List(kind, _) => { lemma_rt_ok_mono(*kind, n, m); }
+        Type::Fn { params, ret, .. } => {
+            assert forall|i: int| 0 <= i < params.len() implies rt_ok(#[trigger] params[i], m) by { lemma_rt_ok_mono(params[i], n, m); }
+            lemma_rt_ok_mono(*ret, n, m);
+        }
+        _ => {}
+    }
+}
+pub open spec fn rt_up(t: Type, n: int) -> bool { forall|m: int| m >= n ==> #[trigger] rt_ok(t, m) }
+pub proof fn lemma_rt_up(t: Type, n: int)
+    requires rt_ok(t, n),
+    ensures rt_up(t, n),
+{ assert forall|m: int| m >= n implies #[trigger] rt_ok(t, m) by { lemma_rt_ok_mono(t, n, m); } }
 /// every variable id mentioned anywhere in a resolved tree is below n (i.e. an index of the
 /// variable table) - the phase contract between the resolver and the type checker
 pub open spec fn e_below(e: Expression, n: int) -> bool decreases e {
@@ -88,7 +122,8 @@ pub open spec fn e_below(e: Expression, n: int) -> bool decreases e {
         Expression::Case { to_match, branches, fall_through, .. } => e_below(*to_match, n)
             && (forall|i: int| 0 <= i < branches.len() ==> cb_below(#[trigger] branches[i], n))
             && (match fall_through { Some(b) => forall|i: int| 0 <= i < b.len() ==> s_below(#[trigger] b[i], n), None => true }),
-        Expression::Function { params, body, .. } => (forall|k: int| 0 <= k < params.len() ==> (#[trigger] params[k]).1 < n)
+        Expression::Function { params, ret, body, .. } => (forall|k: int| 0 <= k < params.len() ==> (#[trigger] params[k]).1 < n && rt_ok(params[k].3, n))
+            && rt_ok(ret, n)
             && forall|i: int| 0 <= i < body.len() ==> s_below(#[trigger] body[i], n),
         Expression::Blob { blob, fields, self_var, .. } => blob < n && self_var < n
             && forall|i: int| 0 <= i < fields.len() ==> e_below((#[trigger] fields[i]).1, n),
@@ -107,8 +142,9 @@ pub open spec fn cb_below(b: CaseBranch, n: int) -> bool decreases b {
 pub open spec fn s_below(s: Statement, n: int) -> bool decreases s {
     match s {
         Statement::Assignment { target, value, .. } => e_below(target, n) && e_below(value, n),
-        Statement::Blob { var, .. } | Statement::Enum { var, .. } | Statement::ExternalDefinition { var, .. } => var < n,
-        Statement::Definition { var, value, .. } => var < n && e_below(value, n),
+        Statement::Blob { var, .. } | Statement::Enum { var, .. } => var < n,
+        Statement::ExternalDefinition { var, ty, .. } => var < n && rt_ok(ty, n),
+        Statement::Definition { var, ty, value, .. } => var < n && rt_ok(ty, n) && e_below(value, n),
         Statement::Loop { condition, body, .. } => e_below(condition, n) && forall|i: int| 0 <= i < body.len() ==> s_below(#[trigger] body[i], n),
         Statement::Break(_) | Statement::Continue(_) | Statement::Unreachable(_) => true,
         Statement::Ret { value, .. } => match value { Some(v) => e_below(v, n), None => true },
@@ -145,8 +181,10 @@ pub proof fn lemma_e_below_mono(e: Expression, n: int, m: int)
                 None => {}
             }
         }
-        Expression::Function { params, body, .. } => {
+        Expression::Function { params, ret, body, .. } => {
             assert forall|i: int| 0 <= i < body.len() implies s_below(#[trigger] body[i], m) by { lemma_s_below_mono(body[i], n, m); }
+            assert forall|k: int| 0 <= k < params.len() implies (#[trigger] params[k]).1 < m && rt_ok(params[k].3, m) by { lemma_rt_ok_mono(params[k].3, n, m); }
+            lemma_rt_ok_mono(ret, n, m);
         }
         Expression::Blob { fields, .. } => {
             assert forall|i: int| 0 <= i < fields.len() implies e_below((#[trigger] fields[i]).1, m) by { lemma_e_below_mono(fields[i].1, n, m); }
@@ -179,7 +217,8 @@ pub proof fn lemma_s_below_mono(s: Statement, n: int, m: int)
 {
     match s {
         Statement::Assignment { target, value, .. } => { lemma_e_below_mono(target, n, m); lemma_e_below_mono(value, n, m); }
-        Statement::Definition { value, .. } => { lemma_e_below_mono(value, n, m); }
+        Statement::Definition { ty, value, .. } => { lemma_e_below_mono(value, n, m); lemma_rt_ok_mono(ty, n, m); }
+        Statement::ExternalDefinition { ty, .. } => { lemma_rt_ok_mono(ty, n, m); }
         Statement::Loop { condition, body, .. } => {
             lemma_e_below_mono(condition, n, m);
             assert forall|i: int| 0 <= i < body.len() implies s_below(#[trigger] body[i], m) by { lemma_s_below_mono(body[i], n, m); }
@@ -266,7 +305,7 @@ pub open spec fn e_ok_children(e: Expression, n: int) -> bool {
         Expression::Case { to_match, branches, fall_through, .. } => e_ok(*to_match, n)
             && (forall|i: int| 0 <= i < branches@.len() ==> cb_ok(#[trigger] branches@[i], n))
             && (fall_through is Some ==> all_ok(fall_through->Some_0@, n)),
-        Expression::Function { params, body, .. } => (forall|k: int| 0 <= k < params@.len() ==> (#[trigger] params@[k]).1 < n) && all_ok(body@, n),
+        Expression::Function { params, ret, body, .. } => (forall|k: int| 0 <= k < params@.len() ==> (#[trigger] params@[k]).1 < n && rt_ok(params@[k].3, n)) && rt_ok(ret, n) && all_ok(body@, n),
         Expression::Blob { blob, fields, self_var, .. } => blob < n && self_var < n && forall|i: int| 0 <= i < fields@.len() ==> e_ok((#[trigger] fields@[i]).1, n),
         Expression::Collection { values, .. } => forall|i: int| 0 <= i < values@.len() ==> e_ok(#[trigger] values@[i], n),
         Expression::Float(..) | Expression::Int(..) | Expression::Str(..) | Expression::Bool(..) | Expression::Nil(..) => true,
@@ -357,11 +396,13 @@ pub broadcast proof fn lemma_up_case(to_match: Box<Expression>, branches: Vec<Ca
     }
 }
 pub broadcast proof fn lemma_up_function(name: String, params: Vec<(String, Ref, Span, Type)>, ret: Type, body: Vec<Statement>, pure: bool, span: Span, n: int)
-    requires forall|k: int| 0 <= k < params@.len() ==> (#[trigger] params@[k]).1 < n, all_up(body@, n),
+    requires forall|k: int| 0 <= k < params@.len() ==> (#[trigger] params@[k]).1 < n && rt_up(params@[k].3, n), rt_up(ret, n), all_up(body@, n),
     ensures #[trigger] e_up(Expression::Function { name, params, ret, body, pure, span }, n),
 {
     assert forall|m: int| m >= n implies #[trigger] e_below(Expression::Function { name, params, ret, body, pure, span }, m) by {
         assert forall|i: int| 0 <= i < body.len() implies s_below(#[trigger] body[i], m) by { assert(s_up(body@[i], n)); }
+        assert forall|k: int| 0 <= k < params.len() implies (#[trigger] params[k]).1 < m && rt_ok(params[k].3, m) by { assert(rt_up(params@[k].3, n)); }
+        assert(rt_ok(ret, m));
     }
 }
 pub broadcast proof fn lemma_up_blob(blob: Ref, fields: Vec<(String, Expression)>, self_var: Ref, span: Span, n: int)
@@ -404,8 +445,9 @@ pub broadcast proof fn lemma_up_casebranch(pattern: Identifier, variable: Option
 pub broadcast proof fn lemma_up_statement(s: Statement, n: int)
     requires match s {
         Statement::Assignment { target, value, .. } => e_up(target, n) && e_up(value, n),
-        Statement::Blob { var, .. } | Statement::Enum { var, .. } | Statement::ExternalDefinition { var, .. } => var < n,
-        Statement::Definition { var, value, .. } => var < n && e_up(value, n),
+        Statement::Blob { var, .. } | Statement::Enum { var, .. } => var < n,
+        Statement::ExternalDefinition { var, ty, .. } => var < n && rt_up(ty, n),
+        Statement::Definition { var, ty, value, .. } => var < n && rt_up(ty, n) && e_up(value, n),
         Statement::Loop { condition, body, .. } => e_up(condition, n) && all_up(body@, n),
         Statement::Break(_) | Statement::Continue(_) | Statement::Unreachable(_) => true,
         Statement::Ret { value, .. } => value is Some ==> e_up(value->Some_0, n),
@@ -417,7 +459,8 @@ pub broadcast proof fn lemma_up_statement(s: Statement, n: int)
     assert forall|m: int| m >= n implies #[trigger] s_below(s, m) by {
         match s {
             Statement::Assignment { target, value, .. } => { assert(e_below(target, m)); assert(e_below(value, m)); }
-            Statement::Definition { var, value, .. } => { assert(e_below(value, m)); }
+            Statement::Definition { var, ty, value, .. } => { assert(e_below(value, m)); assert(rt_ok(ty, m)); }
+            Statement::ExternalDefinition { var, ty, .. } => { assert(rt_ok(ty, m)); }
             Statement::Loop { condition, body, .. } => {
                 assert(e_below(condition, m));
                 assert forall|i: int| 0 <= i < body.len() implies s_below(#[trigger] body[i], m) by { assert(s_up(body@[i], n)); }
